@@ -10,6 +10,8 @@ _C13_JOBS = [
     dict(_C13_SRC, mode="strings", flavour="fast", defs=["NXC_MODE_STRINGS"]),
     # the same sweep with ARDUINOJSON_ENABLE_PROGMEM=1 (powers-of-ten tables read through pgm_read_*; repository stubs)
     dict(_C13_SRC, mode="strings", flavour="fast", defs=["NXC_MODE_STRINGS"], arduino=True),
+    # single-precision build: the parser's digit counters are 8 bits wide there
+    dict(_C13_SRC, mode="strings", flavour="fast", defs=["NXC_MODE_STRINGS", "ARDUINOJSON_USE_DOUBLE=0"]),
     # g++ -O2: the 2^32 loops (quick: a grid of 65536-value blocks around every multiple of 2^22)
     dict(_C13_SRC, mode="convert32", flavour="fast", defs=["NXC_MODE_CONVERT32"],
          quick_args=["--blocks=grid"], thorough_args=["--blocks=all"]),
@@ -34,7 +36,7 @@ PROPS["C13"] = {
         "numeric strings and non-integer JSON literals are judged with the parse tolerance of C12 (1e-6 relative; exact for "
         "integer literals in [-2^63, 2^64); beyond 1e+-300 the out-of-range result is also accepted)",
         "glibc strtold is correctly rounded",
-        "default configuration (ARDUINOJSON_USE_DOUBLE=1, USE_LONG_LONG=1, ENABLE_NAN=0, ENABLE_INFINITY=0)",
+        "default configuration (ARDUINOJSON_USE_DOUBLE=1, USE_LONG_LONG=1, ENABLE_NAN=0, ENABLE_INFINITY=0); the numeric-string sweep also in a USE_DOUBLE=0 build",
     ],
     "quick": _C13_JOBS,
     "thorough": _C13_JOBS,
